@@ -1,5 +1,5 @@
 // Shared declarations of the array-AD correspondence driver (family `arrayad`, properties C03 and C09).
-// The statement menu is split over drv_arrayad_s1..s8.cpp so that the translation units compile in parallel.
+// The statement menu is split over drv_arrayad_s1..s9.cpp so that the translation units compile in parallel.
 #ifndef VERIF_DRV_ARRAYAD_H
 #define VERIF_DRV_ARRAYAD_H
 #include "spy.h"
@@ -70,6 +70,7 @@ int exec_s5(const Words& w, Ctx& c);
 int exec_s6(const Words& w, Ctx& c);
 int exec_s7(const Words& w, Ctx& c);
 int exec_s8(const Words& w, Ctx& c);
+int exec_s9(const Words& w, Ctx& c);
 
 template <int R, bool A> void add_root(long h, Array<R, double, A>* a) {
   Obj o; o.kind = K_ARR; o.rank = R; o.active = A; o.p = a; o.root = h;
